@@ -91,17 +91,19 @@ theorem push_has {q : Q} {sid} (id ord dlen : Nat) (h : Has q sid) : Has (push q
   · refine ⟨fillItem T.1 T.2 id ord dlen, ?_, hs⟩
     rw [e1]
     exact List.mem_append_left _ (List.mem_append_right _ (List.mem_singleton.mpr rfl))
+theorem has_setPollCount {q : Q} {sid} (n : Nat) (h : Has q sid) : Has { q with pollCount := n } sid := h
+
 theorem addPoll_has {q c sid} (h : Has q sid) : Has (addPoll q c) sid := by
   unfold addPoll
   generalize (q.pollCount + 1) % W32 = n
   have w := walk_pointwise { q with pollCount := n } incPollCount Same same_refl same_incPollCount c.cur
-  exact has_pointwise w.1 w.2.1 h
+  exact has_pointwise w.1 w.2.1 (has_setPollCount n h)
 
 theorem removePoll_has {q c sid} (h : Has q sid) : Has (removePoll q c) sid := by
   unfold removePoll
   generalize (q.pollCount + W32 - 1) % W32 = n
   have w := walk_pointwise { q with pollCount := n } incPollIndex Same same_refl same_incPollIndex c.cur
-  exact has_pointwise w.1 w.2.1 h
+  exact has_pointwise w.1 w.2.1 (has_setPollCount n h)
 
 theorem ack_has {q c q' c' b sid} (ha : ack q c = some (q', c', b)) (h : Has q sid) : Has q' sid := by
   obtain ⟨a1, a2, _, _, _, _⟩ := ack_spec ha
@@ -147,6 +149,31 @@ def OpOk (s : Sys) : Op → Prop
 def Guarded (s : Sys) : List Op → Prop
   | [] => True
   | op :: ops => OpOk s op ∧ Guarded (step s op).1 ops
+
+instance (q : Q) (c : Cursor) : Decidable (AddGuard q c) :=
+  match h : c.cur with
+  | none => isTrue (by intro sid hs; rw [h] at hs; cases hs)
+  | some sid => decidable_of_iff (∀ it ∈ q.free, it.sid ≠ sid)
+      ⟨fun hh s hs => by rw [h] at hs; cases hs; exact hh, fun hh => hh sid h⟩
+
+instance (s : Sys) (op : Op) : Decidable (OpOk s op) :=
+  match op with
+  | .add n =>
+    match h : getC s.cs n with
+    | none => isTrue (by intro c hc; rw [h] at hc; cases hc)
+    | some c => decidable_of_iff (AddGuard s.q c)
+        ⟨fun hh d hd => by rw [h] at hd; cases hd; exact hh, fun hh => hh c h⟩
+  | .rm _ => inferInstanceAs (Decidable (0 < s.q.pollCount))
+  | .push .. => isTrue trivial
+  | .cursor _ => isTrue trivial
+  | .pop _ => isTrue trivial
+  | .ack _ => isTrue trivial
+  | .head _ => isTrue trivial
+  | .search .. => isTrue trivial
+
+instance guardedDec : (s : Sys) → (ops : List Op) → Decidable (Guarded s ops)
+  | _, [] => isTrue trivial
+  | s, op :: ops => @instDecidableAnd _ _ _ (guardedDec (step s op).1 ops)
 
 def addsOf : Op → Nat
   | .add _ => 1
